@@ -265,7 +265,7 @@ CONN_PATTERNS = [b"/*", b"/p", b"/p*", b"/a/*", b"/a/b", b"/a/b*", b"/n", b"/n*"
 
 
 def all_kinds_reqs(path):
-    """miss, hit, 304, 206, 416, HEAD, If-Modified-Since + Range (304 since C09's repair 1055e51; 416 before), POST"""
+    """miss, hit, 304, 206, 416, HEAD, If-Modified-Since + Range (304 since C09's repair 9ae9b1a; 416 before), POST"""
     return [conn_req(GET, path), conn_req(GET, path), conn_req(GET, path, 0, 1), conn_req(GET, path, 1), conn_req(GET, path, 2),
             conn_req(HEAD, path), conn_req(GET, path, 1, 1), conn_req(POST, path), conn_req(HEAD, path, 1)]
 
